@@ -54,6 +54,10 @@ def plan(tier: str, seed: int) -> t.List[dict]:
         specs.append({"name": f"rand-{i}", "kind": "rand", "n": (5000 if q else 100000) // (8 if q else 16)})
     for i in range(4 if q else 16):
         specs.append({"name": f"seedcache-{i}", "kind": "seedcache", "n": 6 if q else 40})
+    # the process environment is part of the configuration: local time zones (set before the interpreter imports anything)
+    for tz in ("Europe/Berlin", "America/New_York", "Australia/Sydney", "Asia/Kolkata") if q else ("Europe/Berlin", "America/New_York", "Australia/Sydney", "Asia/Kolkata", "Pacific/Chatham", "America/St_Johns", "Africa/Monrovia", "UTC"):
+        specs.append({"name": f"tz-{tz.replace('/', '_')}", "kind": "l0", "l0s": [361, 362, 400 + len(tz)], "env": {"TZ": tz}})
+        specs.append({"name": f"tzrand-{tz.replace('/', '_')}", "kind": "rand", "n": 300 if q else 3000, "env": {"TZ": tz}})
     return specs
 
 
@@ -198,6 +202,14 @@ def run_shard(spec: dict, rec: Recorder) -> None:
         return
     rng = common.rng_for(ID, spec)
     kind = spec["kind"]
+    if spec.get("env", {}).get("TZ"):
+        import os
+        import time as _t
+
+        if os.environ.get("TZ") != spec["env"]["TZ"]:
+            rec.inconclusive_because("TZ was not applied to the shard process")
+            return
+        rec.seen("time_zones", f"{spec['env']['TZ']} {_t.tzname}")
     if kind == "l0":
         for l0 in spec["l0s"]:
             bnd = l0 * 1024 * B
